@@ -12,6 +12,7 @@ import math
 
 from .. import universe as U
 from ..acc import Acc
+from .. import argforms as AF
 from ..muts import compute_parents
 from ..ref import parsimony as P
 from ..ref.geno import site_alleles
@@ -180,7 +181,8 @@ def judge(ctx, mode, geno, geno_arr, costs, code, roundtrip, acc, case):
         elif code[0] == "s":
             ret = ctx.tree.map_mutations(geno_arr.astype("int32"), list(alleles), arg)
         else:
-            ret = ctx.tree.map_mutations(geno_arr, alleles, ancestral_state=arg)
+            # int8 genotypes in rotating memory layouts (strided / reversed / column views, read-only)
+            ret = ctx.tree.map_mutations(AF.reform(geno_arr, sum(geno) + len(geno))[1], alleles, ancestral_state=arg)
         anc_ret, muts = ret
         muts = list(muts)
     except Exception as e:  # noqa
